@@ -525,7 +525,7 @@ func (fg *FG) specLoc(x *SExpr, env *Env) *Loc {
 			if t != nil {
 				fg.heapTy[gf.family] = t
 			}
-			return &Loc{Kind: LGhost, Heap: gf.family, Ref: a.T, Ty: t, GSort: srt}
+			return &Loc{Kind: LGhost, Heap: gf.family, Ref: fg.refOf(a), Ty: t, GSort: srt}
 		}
 		obj, index, _ := types.LookupFieldOrMethod(a.Ty, true, env.pkg, x.Name)
 		if obj == nil {
